@@ -36,8 +36,10 @@ LEVEL_KEYS = {
     "from": [1, 2, 3],
     "to": [1, 2, 3],
     "": [5, 6, 7],               # a falsy level name that is not None
+    "iv": ["(0,1]", "(1,2]", "(2,4]"],      # interval keys (histogram bins, R ranges); written as strings in the trace
+    "x": [0.5, 1.5, -2.25],                 # float keys
 }
-NAMES = ["a", "b", "c", "d", None, "from", "to", ""]
+NAMES = ["a", "b", "c", "d", None, "from", "to", "", "iv", "x"]
 
 
 # ------------------------------------------------------------------ seeded uuid seam
@@ -63,6 +65,13 @@ class UuidSeam:
 
 # ------------------------------------------------------------------ specs <-> pandas
 
+def _key(name, k):
+    if name == "iv" and isinstance(k, str) and k.startswith("("):
+        a, b = k[1:-1].split(",")
+        return pd.Interval(float(a), float(b), closed="right")
+    return k
+
+
 def build(spec, pool_objs):
     """spec -> pandas object (aliases resolved against already built objects)."""
     al = spec.get("alias")
@@ -80,12 +89,12 @@ def build(spec, pool_objs):
         if al["how"] == "transposed":
             # the same key tuples, position by position, under permuted level names
             vals = np.array(spec["values"], dtype=np.float64)
-            idx = pd.MultiIndex.from_tuples([tuple(r) for r in spec["index"]], names=spec["names"])
+            idx = pd.MultiIndex.from_tuples([tuple(_key(n, k) for n, k in zip(spec["names"], r)) for r in spec["index"]], names=spec["names"])
             if spec["kind"] == "series":
                 return pd.Series(vals[:, 0], index=idx, name=spec.get("name"))
             return pd.DataFrame(vals, index=idx, columns=spec["columns"])
     names = spec["names"]
-    rows = [tuple(r) for r in spec["index"]]
+    rows = [tuple(_key(n, k) for n, k in zip(names, r)) for r in spec["index"]]
     if len(names) == 1:
         idx = pd.Index([r[0] for r in rows], name=names[0])
     else:
@@ -115,6 +124,8 @@ def snapshot(obj):
 
 
 def _py(k):
+    if isinstance(k, pd.Interval):
+        return "(%g,%g]" % (k.left, k.right)
     if isinstance(k, (np.integer,)):
         return int(k)
     if isinstance(k, (np.floating,)):
@@ -203,7 +214,7 @@ def generate(prop, rng, tier):
         if pool and r < 0.22 and r >= 0.12:
             base = rng.randrange(len(pool))
             b = pool[base]
-            if "alias" not in b and len(b["names"]) >= 2 and None not in b["names"]:
+            if "alias" not in b and len(b["names"]) >= 2 and None not in b["names"] and "iv" not in b["names"]:
                 k0 = [set(type(r[q]).__name__ for r in b["index"]) for q in range(len(b["names"]))]
                 names2 = list(reversed(b["names"]))
                 spec = {"alias": {"of": base, "how": "transposed"}, "kind": rng.choice(["series", "frame"]),
@@ -266,9 +277,11 @@ def generate(prop, rng, tier):
         elif r < 0.72:
             steps.append({"op": "bc_drop", "obj": rng.randrange(64), "prm": rng.randrange(64), "which": rng.randrange(8)})
         elif r < 0.78:
-            steps.append({"op": "bc_scalar", "obj": rng.randrange(64), "scalar": rng.choice([5.0, -1.5, 0.0])})
+            steps.append({"op": "bc_scalar", "obj": rng.randrange(64), "scalar": rng.choice([5.0, -1.5, 0.0]),
+                          "as": rng.choice(["float", "int", "np", "0d"])})
         elif r < 0.88:
-            steps.append({"op": "bc_array", "obj": rng.randrange(64), "len": rng.choice([1, 2, 3, "match", "match"])})
+            steps.append({"op": "bc_array", "obj": rng.randrange(64), "len": rng.choice([1, 2, 3, "match", "match"]),
+                          "as": rng.choice(["ndarray", "ndarray", "list", "tuple"])})
         else:
             n_el = rng.randint(1, 4)
             n_sc = rng.randint(1, 4)
@@ -458,7 +471,9 @@ def _run(trace, out, log):
         obj = pool[i]
         if op == "bc_scalar":
             try:
-                prm, res = Broadcaster(obj).broadcast(float(st["scalar"]))
+                sc = float(st["scalar"])
+                sc_in = {"int": int(sc) if sc == int(sc) else sc, "np": np.float64(sc), "0d": np.array(sc)}.get(st.get("as"), sc)
+                prm, res = Broadcaster(obj).broadcast(sc_in)
             except Exception as e:  # noqa
                 out.violate("exception", "scalar", {"step": k, "type": type(e).__name__, "msg": str(e)[:200]})
                 return
@@ -479,9 +494,10 @@ def _run(trace, out, log):
         if op == "bc_array":
             n = len(obj) if st["len"] == "match" else int(st["len"])
             arr = np.arange(n, dtype=np.float64) * 1.5 + 100.0
+            arr_in = {"list": [float(x) for x in arr], "tuple": tuple(float(x) for x in arr)}.get(st.get("as"), arr)
             must_fail = isinstance(obj, pd.DataFrame) and n not in (1, len(obj))
             try:
-                prm, res = Broadcaster(obj).broadcast(arr)
+                prm, res = Broadcaster(obj).broadcast(arr_in)
                 err = None
             except ValueError as e:
                 err = e
